@@ -7,6 +7,7 @@ import (
 	"github.com/orda-io/orda/client/pkg/iface"
 	"github.com/orda-io/orda/client/pkg/model"
 	"github.com/orda-io/orda/client/pkg/operations"
+	"github.com/orda-io/orda/client/pkg/vhook"
 	"github.com/orda-io/orda/server/constants"
 	"github.com/orda-io/orda/server/managers"
 	"github.com/orda-io/orda/server/schema"
@@ -141,6 +142,7 @@ func (its *PushPullHandler) finalize() {
 	if its.locked {
 		defer its.lock.Unlock()
 	}
+	defer vhook.At("pp.cs-exit", its.getLockKey(), its.locked)
 	if its.err == nil {
 		its.ctx.L().Infof("finish with CP %v -> %v and pulled ops: %d",
 			its.initialCP.ToString(), its.currentCP.ToString(), len(its.resPushPullPack.Operations))
@@ -148,7 +150,9 @@ func (its *PushPullHandler) finalize() {
 
 			newCtx := its.ctx.CloneWithNewEmoji(constants.TagPostPushPull)
 
+			vhook.Go()
 			go func() {
+				defer vhook.Done()
 				defer its.recoveryFromPanic()
 				if err := its.sendNotification(newCtx); err == nil {
 					// continue
@@ -189,6 +193,7 @@ func (its *PushPullHandler) logInitialConditions() {
 func (its *PushPullHandler) process(retCh chan *model.PushPullPack) {
 
 	its.locked = its.lock.TryLock()
+	vhook.At("pp.cs-enter", its.getLockKey(), its.locked)
 
 	defer its.finalize()
 
@@ -221,6 +226,7 @@ func (its *PushPullHandler) process(retCh chan *model.PushPullPack) {
 	if its.err = its.pullOperations(); its.err != nil {
 		return
 	}
+	vhook.At("pp.before-commit", its.getLockKey())
 	if its.err = its.commitToMongoDB(); its.err != nil {
 		return
 	}
